@@ -1207,8 +1207,9 @@ impl WasmGenerator {
                         // Load condition and convert to i32 for WASM if instruction.
                         // The native VM uses JmpIfNeg which jumps to else when cond <= 0.0,
                         // so the then-branch is taken when cond > 0.0.
-                        self.emit_value_load(cond, wasm_func);
-                        if self.infer_value_type(cond) == ValType::F64 {
+                        let cond_type = self.infer_operand_value_type(cond);
+                        self.emit_value_load_typed(cond, cond_type, wasm_func);
+                        if cond_type == ValType::F64 {
                             // cond > 0.0 means then-branch (matching VM's JmpIfNeg semantics)
                             wasm_func.instruction(&W::F64Const(0.0));
                             wasm_func.instruction(&W::F64Gt);
@@ -1419,8 +1420,9 @@ impl WasmGenerator {
 
                     let phi_info = Self::find_phi_in_block(&ctx.blocks[merge_idx]);
 
-                    self.emit_value_load(cond, func);
-                    if self.infer_value_type(cond) == ValType::F64 {
+                    let cond_type = self.infer_operand_value_type(cond);
+                    self.emit_value_load_typed(cond, cond_type, func);
+                    if cond_type == ValType::F64 {
                         func.instruction(&W::F64Const(0.0));
                         func.instruction(&W::F64Gt);
                     } else {
@@ -1512,8 +1514,9 @@ impl WasmGenerator {
 
                     let phi_info = Self::find_phi_in_block(&ctx.blocks[merge_idx]);
 
-                    self.emit_value_load(cond, func);
-                    if self.infer_value_type(cond) == ValType::F64 {
+                    let cond_type = self.infer_operand_value_type(cond);
+                    self.emit_value_load_typed(cond, cond_type, func);
+                    if cond_type == ValType::F64 {
                         func.instruction(&W::F64Const(0.0));
                         func.instruction(&W::F64Gt);
                     } else {
@@ -1637,8 +1640,9 @@ impl WasmGenerator {
 
                 let phi_info = Self::find_phi_in_block(&ctx.blocks[merge_idx]);
 
-                self.emit_value_load(cond, func);
-                if self.infer_value_type(cond) == ValType::F64 {
+                let cond_type = self.infer_operand_value_type(cond);
+                self.emit_value_load_typed(cond, cond_type, func);
+                if cond_type == ValType::F64 {
                     func.instruction(&W::F64Const(0.0));
                     func.instruction(&W::F64Gt);
                 } else {
@@ -2478,7 +2482,7 @@ impl WasmGenerator {
             // Boolean operations (results are i32 in WASM, extended to i64 for register storage)
             // Operands can be f64 or i64; we check operand type to emit correct comparison.
             I::Eq(a, b) => {
-                let op_type = self.infer_value_type(a);
+                let op_type = self.infer_operand_value_type(a);
                 self.emit_value_load_typed(a, op_type, func);
                 self.emit_value_load_typed(b, op_type, func);
                 if op_type == ValType::F64 {
@@ -2489,7 +2493,7 @@ impl WasmGenerator {
                 func.instruction(&W::F64ConvertI32U);
             }
             I::Ne(a, b) => {
-                let op_type = self.infer_value_type(a);
+                let op_type = self.infer_operand_value_type(a);
                 self.emit_value_load_typed(a, op_type, func);
                 self.emit_value_load_typed(b, op_type, func);
                 if op_type == ValType::F64 {
@@ -2500,7 +2504,7 @@ impl WasmGenerator {
                 func.instruction(&W::F64ConvertI32U);
             }
             I::Lt(a, b) => {
-                let op_type = self.infer_value_type(a);
+                let op_type = self.infer_operand_value_type(a);
                 self.emit_value_load_typed(a, op_type, func);
                 self.emit_value_load_typed(b, op_type, func);
                 if op_type == ValType::F64 {
@@ -2511,7 +2515,7 @@ impl WasmGenerator {
                 func.instruction(&W::F64ConvertI32U);
             }
             I::Le(a, b) => {
-                let op_type = self.infer_value_type(a);
+                let op_type = self.infer_operand_value_type(a);
                 self.emit_value_load_typed(a, op_type, func);
                 self.emit_value_load_typed(b, op_type, func);
                 if op_type == ValType::F64 {
@@ -2522,7 +2526,7 @@ impl WasmGenerator {
                 func.instruction(&W::F64ConvertI32U);
             }
             I::Gt(a, b) => {
-                let op_type = self.infer_value_type(a);
+                let op_type = self.infer_operand_value_type(a);
                 self.emit_value_load_typed(a, op_type, func);
                 self.emit_value_load_typed(b, op_type, func);
                 if op_type == ValType::F64 {
@@ -2533,7 +2537,7 @@ impl WasmGenerator {
                 func.instruction(&W::F64ConvertI32U);
             }
             I::Ge(a, b) => {
-                let op_type = self.infer_value_type(a);
+                let op_type = self.infer_operand_value_type(a);
                 self.emit_value_load_typed(a, op_type, func);
                 self.emit_value_load_typed(b, op_type, func);
                 if op_type == ValType::F64 {
@@ -4427,6 +4431,18 @@ impl WasmGenerator {
 
     /// Infer the WASM ValType of a MIR value.
     /// Used to select the correct comparison instruction (F64 vs I64).
+    /// Type of the value an operand denotes when it is compared or tested.
+    /// A `GetElement` result is a pointer (I64) to an element of a tuple/record: comparisons and
+    /// conditions must look at the element it points to, not at the address.
+    fn infer_operand_value_type(&self, value: &VPtr) -> ValType {
+        if let mir::Value::Register(reg_idx) = value.as_ref()
+            && let Some(elem_type) = self.getelement_registers.get(reg_idx)
+        {
+            return *elem_type;
+        }
+        self.infer_value_type(value)
+    }
+
     fn infer_value_type(&self, value: &VPtr) -> ValType {
         match value.as_ref() {
             mir::Value::Register(reg_idx) => self
